@@ -422,6 +422,12 @@ func reportFirstDiff(w *World, r *Report, fns map[string]*ssa.Function) {
 								continue
 							}
 							E := D.Sub(L) // = -minl (+k)
+							if !(len(E.T) == 1 && (op == opLT || op == opLE)) {
+								// the same test written the other way round: minl - pos > 0
+								if E2 := D.Add(L); len(E2.T) == 1 && (op == opGT || op == opGE) {
+									E, op = E2.Neg(), flipOp(op)
+								}
+							}
 							if len(E.T) == 1 && (op == opLT || op == opLE) && E.K == 0 {
 								for atom, coef := range E.T {
 									if p, ok := fa.AtomValue(atom).(*ssa.Phi); ok && coef == -1 {
